@@ -2,17 +2,39 @@
 import re
 
 from .. import lib, mir
-from ..mir import render
+from .. import lib_sec as S
+from ..mir import render, strip_generics
 
 EXPLANATION = ("Noise Output: MAX_FRAME_LEN + EXTRA_ENCRYPT_SPACE <= 65535 so the u16 length prefix cannot truncate; poll_write sizes the "
                "send buffer from send_offset (buffer length == bytes buffered), copies exactly n = min(MAX_FRAME_LEN - off, buf.len()) bytes "
                "to send_buffer[off..off+n], advances send_offset by n and reports n; a frame is sent exactly when send_offset == MAX_FRAME_LEN "
                "(poll_write) or > 0 (poll_flush) and send_offset is reset exactly once after each successful start_send; poll_read hands "
-               "out recv_buffer[off..off+n] and fetches the next frame only when the buffer is empty; every snow::Error is mapped and "
-               "propagated; decode_length_prefixed yields a frame only when all of its bytes are present.")
+               "out recv_buffer[off..off+n], advances recv_offset by exactly that n exactly once before reporting n, drops the frame only "
+               "when it is fully consumed, and fetches the next frame only when the buffer is empty; every snow::Error is mapped and "
+               "propagated; decode_length_prefixed yields a frame only when all of its bytes are present.  Parameters are identified by "
+               "position, the receiver through any alias (`this`, Pin deref), comparisons in any operand order / polarity.")
 ASSUMPTIONS = ["AEAD tamper detection and chunking schedules are not executed", "asynchronous_codec::Framed delivers each encoded frame once, in order"]
 N = "libp2p_noise"
 MAXC = "const:libp2p_noise::io::framed::MAX_FRAME_LEN"
+
+
+def self_fld(name):
+    """predicate: expression is `self.<name>` (any receiver alias, through view conversions)"""
+    def p(e):
+        e = S.peel(e)
+        return e[0] == "field" and e[2] == name and e[1][0] == "arg" and e[1][1] == 1
+    return p
+
+
+def named_const(pat):
+    return lambda e: S.cval(e) is not None and any(s[0] == "namedconst" and re.search(pat, s[1]) for s in mir.walk(e))
+
+
+def len_of(pred):
+    """predicate: expression is `<X>.len()` with pred(X)"""
+    def p(e):
+        return e[0] == "call" and re.search(r"::len$", strip_generics(e[1])) is not None and len(e[2]) == 1 and pred(S.peel(e[2][0]))
+    return p
 
 
 def check(ctx):
@@ -22,18 +44,21 @@ def check(ctx):
     mnm = prog.const(N, r"io::framed::MAX_NOISE_MSG_LEN$").get("v")
     ctx.ob("const", "MAX_FRAME_LEN + EXTRA_ENCRYPT_SPACE <= 65535", all(isinstance(x, int) for x in (mfl, ees, mnm)) and mfl + ees <= 65535 and mnm <= 65535,
            msg="MAX_FRAME_LEN=%s EXTRA_ENCRYPT_SPACE=%s MAX_NOISE_MSG_LEN=%s" % (mfl, ees, mnm))
-    w = ctx.body(N, r"<io::Output as futures::AsyncWrite>::poll_write$")
+    w = S.canon_args(ctx.body(N, r"<io::Output as futures::AsyncWrite>::poll_write$"), ["self", "cx", "buf"])
+    rn = S.recv_norm(w)
+    V = S.view(w)
     rets = w.return_blocks()
     ss = w.call_sites(r"Sink>::start_send$")
     ctx.floor("write", "start_send in poll_write", ss, 1)
-    resets = [s for s in w.field_write_sites("send_offset") if render(w.site_expr(s)) == "0"]
+    resets = [s for s in w.field_write_sites("send_offset") if S.cval(w.site_expr(s)) == 0]
     adv = [s for s in w.field_write_sites("send_offset") if s not in resets]
+    off_max = S.rel_edges(w, lambda e: self_fld("send_offset")(rn(e)), lambda e: S.is_const(e, mfl, r"MAX_FRAME_LEN$"))
     for s in ss:
-        ctx.guarded("write", "frame sent exactly when the buffer is full", s, lambda c, r, l: l == "true" and r == "Eq(this.send_offset, %s)" % MAXC, "send_offset == MAX_FRAME_LEN")
-        e = render(w.site_expr(s)[2][1])
-        ctx.ob("write", "the send buffer is what is sent", e.endswith("(this.send_buffer)") or e == "this.send_buffer" or e == "frame_buf", s.loc(), e)
-        cont = [t for _, t in lib.switch_edges_on_site(w, s, {"Continue"})]
-        brk = [t for _, t in lib.switch_edges_on_site(w, s, {"Break"})]
+        S.guarded(ctx, "write", "frame sent exactly when the buffer is full", s, off_max["eq"], "send_offset == MAX_FRAME_LEN")
+        e = S.peel(rn(w.site_expr(s)[2][1]))
+        ctx.ob("write", "the send buffer is what is sent", self_fld("send_buffer")(e), s.loc(), V(w.site_expr(s)[2][1]))
+        cont, brk = S.call_outcome_edges(w, s)
+        cont, brk = [t for _, t in cont], [t for _, t in brk]
         rz = lib.bbs(w.call_sites(r"Vec::resize$"))
         got = lib.count_range(w, cont, rz + rets, lib.bbs(resets))
         ctx.ob("write", "send_offset reset exactly once after a sent frame", got == (1, 1), s.loc(), "resets after start_send Ok: %s" % (got,))
@@ -42,43 +67,47 @@ def check(ctx):
     for s in resets:
         lib.precedes(ctx, "write", "reset only after start_send", w, lib.bbs(ss), [s.bb], "send_offset = 0 is preceded by start_send", s.loc())
     # full buffer always flushed before buffering more
-    full = lib.switch_edges_on(w, r"^Eq\(this\.send_offset, %s\)$" % re.escape(MAXC), {"true"})
     rz = w.call_sites(r"Vec::resize$")
     ctx.floor("write", "send_buffer.resize", rz, 1)
-    for _, t in full:
+    for _, t in off_max["eq"]:
         ctx.passes("write", "full buffer is sent before more is buffered", w, [t], lib.bbs(rz), lib.bbs(ss), "start_send on the full edge", "%s:%d" % (w.file, w.line))
     for s in rz:
         e = w.site_expr(s)
-        a1 = render(e[2][1])
+        a1 = V(e[2][1])
         ctx.ob("write", "buffer length tracks bytes buffered (resize derives from send_offset)",
-               a1 == "std::cmp::min(%s, core::num::saturating_add(this.send_offset, core::slice::len(buf)))" % MAXC, s.loc(), "resize(%s)" % a1)
-        ctx.ob("write", "resizes the send buffer", render(e[2][0]) in ("this.send_buffer", "frame_buf"), s.loc(), render(e[2][0]))
+               a1 in ("std::cmp::min(%s, core::num::saturating_add(self.send_offset, core::slice::len(buf)))" % MAXC,
+                      "std::cmp::min(core::num::saturating_add(self.send_offset, core::slice::len(buf)), %s)" % MAXC), s.loc(), "resize(%s)" % a1)
+        ctx.ob("write", "resizes the send buffer", self_fld("send_buffer")(rn(e[2][0])), s.loc(), V(e[2][0]))
     cp = w.call_sites(r"slice::copy_from_slice$|copy_from_slice$")
     ctx.floor("write", "copy into send buffer", cp, 1)
-    N_EXPR = "std::cmp::min(SubWithOverflow(%s, this.send_offset).0, core::slice::len(buf))" % MAXC
+    N_EXPRS = ("std::cmp::min(SubWithOverflow(%s, self.send_offset).0, core::slice::len(buf))" % MAXC,
+               "std::cmp::min(core::slice::len(buf), SubWithOverflow(%s, self.send_offset).0)" % MAXC)
     for s in cp:
         e = w.site_expr(s)
-        dst, src = render(e[2][0]), render(e[2][1])
-        ctx.ob("write", "destination = send_buffer[off..off+n]", dst == "<std::vec::Vec as std::ops::IndexMut>::index_mut(this.send_buffer, std::ops::Range::Range{start: this.send_offset, end: AddWithOverflow(this.send_offset, %s).0})" % N_EXPR, s.loc(), dst[:260])
-        ctx.ob("write", "source = buf[..n]", src == "core::slice::index::index(buf, std::ops::RangeTo::RangeTo{end: %s})" % N_EXPR, s.loc(), src[:200])
+        dst, src = V(e[2][0]), V(e[2][1])
+        ctx.ob("write", "destination = send_buffer[off..off+n]", dst in ["<std::vec::Vec as std::ops::IndexMut>::index_mut(self.send_buffer, std::ops::Range::Range{start: self.send_offset, end: AddWithOverflow(self.send_offset, %s).0})" % n for n in N_EXPRS], s.loc(), dst[:260])
+        ctx.ob("write", "source = buf[..n]", src in ["core::slice::index::index(buf, std::ops::RangeTo::RangeTo{end: %s})" % n for n in N_EXPRS], s.loc(), src[:200])
     ctx.floor("write", "send_offset advance", adv, 1)
     for s in adv:
-        ctx.ob("write", "send_offset advances by n", render(w.site_expr(s)) == "AddWithOverflow(this.send_offset, %s).0" % N_EXPR, s.loc(), render(w.site_expr(s))[:200])
+        ctx.ob("write", "send_offset advances by n", V(w.site_expr(s)) in ["AddWithOverflow(self.send_offset, %s).0" % n for n in N_EXPRS], s.loc(), V(w.site_expr(s))[:200])
     okr = [mir.Site(w, x[1], x[2]) for x in w.defs[0] if x[0] == "stmt" and render(w.rvalue_expr(x[3])).startswith("std::task::Poll::Ready{0: std::result::Result::Ok")]
     for s in okr:
-        ctx.ob("write", "reports n bytes written", render(w.site_expr(s)) == "std::task::Poll::Ready{0: std::result::Result::Ok{0: %s}}" % N_EXPR, s.loc(), render(w.site_expr(s))[:200])
+        ctx.ob("write", "reports n bytes written", V(w.site_expr(s)) in ["std::task::Poll::Ready{0: std::result::Result::Ok{0: %s}}" % n for n in N_EXPRS], s.loc(), V(w.site_expr(s))[:200])
         lib.expect_count(ctx, "write", "exactly one copy per accepted write", w, [0], [s.bb], lib.bbs(cp), (1, 1), "copy_from_slice before Ok(n)")
     # ---- poll_flush
-    f = ctx.body(N, r"<io::Output as futures::AsyncWrite>::poll_flush$")
+    f = S.canon_args(ctx.body(N, r"<io::Output as futures::AsyncWrite>::poll_flush$"), ["self", "cx"])
+    rnf = S.recv_norm(f)
     fss = f.call_sites(r"Sink>::start_send$")
     inner = f.call_sites(r"Sink>::poll_flush$")
     ctx.floor("flush", "start_send in poll_flush", fss, 1)
     ctx.floor("flush", "inner poll_flush", inner, 1)
+    off_zero = S.rel_edges(f, lambda e: self_fld("send_offset")(rnf(e)), lambda e: S.cval(e) == 0)
+    pending = off_zero["gt"] | off_zero["ne"]           # send_offset > 0  (usize: != 0 is the same)
     for s in fss:
-        ctx.guarded("flush", "partial frame sent iff bytes are buffered", s, lambda c, r, l: l == "true" and r == "Gt(this.send_offset, 0)", "send_offset > 0")
-    pend = lib.switch_edges_on(f, r"^Gt\(this\.send_offset, 0\)$", {"true"})
-    fres = [s for s in f.field_write_sites("send_offset") if render(f.site_expr(s)) == "0"]
-    for _, t in pend:
+        S.guarded(ctx, "flush", "partial frame sent iff bytes are buffered", s, pending, "send_offset > 0")
+    fres = [s for s in f.field_write_sites("send_offset") if S.cval(f.site_expr(s)) == 0]
+    ctx.ob("flush", "floor:buffered-bytes edge", len(pending) >= 1, nontrivial=False, msg=str(sorted(pending)))
+    for _, t in pending:
         ctx.passes("flush", "buffered bytes are sent before the inner flush", f, [t], lib.bbs(inner), lib.bbs(fss), "start_send precedes io.poll_flush", "%s:%d" % (f.file, f.line))
         ctx.passes("flush", "send_offset reset before the inner flush", f, [t], lib.bbs(inner), lib.bbs(fres), "send_offset = 0 after sending")
     for s in fres:
@@ -89,51 +118,110 @@ def check(ctx):
     who = {b.npath for b in prog.bodies(N) if b.field_write_sites("send_offset", r"io::Output")}
     ctx.ob("who", "send_offset writers", who <= {w.npath, f.npath, "libp2p_noise::io::Output::new"}, msg=str(sorted(who)))
     # ---- poll_read
-    r = ctx.body(N, r"<io::Output as futures::AsyncRead>::poll_read$")
+    r = S.canon_args(ctx.body(N, r"<io::Output as futures::AsyncRead>::poll_read$"), ["self", "cx", "buf"])
+    rnr = S.recv_norm(r)
+    VR = S.view(r)
+    is_buf = lambda e: self_fld("recv_buffer")(rnr(e))
+    is_off = lambda e: self_fld("recv_offset")(rnr(e))
+    have = S.rel_edges(r, len_of(is_buf), lambda e: S.cval(e) == 0)
+    nonempty = have["gt"] | have["ne"]         # usize: != 0 is > 0
+    empty = have["le"]                          # usize: <= 0 is == 0
     cp = r.call_sites(r"copy_from_slice$")
     ctx.floor("read", "copy out of recv buffer", cp, 1)
+    MIN = r"std::cmp::min\(SubWithOverflow\(\w+::Bytes::len\(self\.recv_buffer\), self\.recv_offset\)\.0, core::slice::len\(buf\)\)|std::cmp::min\(core::slice::len\(buf\), SubWithOverflow\(\w+::Bytes::len\(self\.recv_buffer\), self\.recv_offset\)\.0\)"
+    n_expr = None
     for s in cp:
         e = r.site_expr(s)
-        dst, src = render(e[2][0]), render(e[2][1])
-        ctx.ob("read", "destination = buf[..n]", re.match(r"^core::slice::index::index_mut\(buf, std::ops::RangeTo::RangeTo\{end: std::cmp::min\(SubWithOverflow\(.*recv_buffer\), .*recv_offset\)\.0, core::slice::len\(buf\)\)\}\)$", dst) is not None, s.loc(), dst[:240])
-        ctx.ob("read", "source = recv_buffer[off..off+n]", ".recv_buffer" in src and "Range::Range{start: " in src and ".recv_offset, end: AddWithOverflow(" in src, s.loc(), src[:260])
-        ctx.guarded("read", "copy only when a frame is buffered", s, lambda c, rr, l: l == "true" and re.match(r"^Gt\(\w+::Bytes::len\(.*recv_buffer\), 0\)$", rr) is not None, "recv_buffer.len() > 0")
+        dst, src = VR(e[2][0]), VR(e[2][1])
+        m = re.match(r"^core::slice::index::index_mut\(buf, std::ops::RangeTo::RangeTo\{end: (%s)\}\)$" % MIN, dst)
+        ctx.ob("read", "destination = buf[..n]", m is not None, s.loc(), dst[:240])
+        n_expr = m.group(1) if m else None
+        ok = n_expr is not None and re.match(r"^core::slice::index::index\(<\w+::Bytes as std::ops::Deref>::deref\(self\.recv_buffer\), std::ops::Range::Range\{start: self\.recv_offset, end: AddWithOverflow\(self\.recv_offset, %s\)\.0\}\)$" % re.escape(n_expr), src) is not None
+        ctx.ob("read", "source = recv_buffer[off..off+n]", ok, s.loc(), src[:260])
+        S.guarded(ctx, "read", "copy only when a frame is buffered", s, nonempty, "recv_buffer.len() > 0")
     pn = r.call_sites(r"Stream>::poll_next$")
     ctx.floor("read", "next frame poll", pn, 1)
     for s in pn:
-        ctx.guarded("read", "next frame fetched only when the buffer is drained", s, lambda c, rr, l: l == "false" and re.match(r"^Gt\(\w+::Bytes::len\(.*recv_buffer\), 0\)$", rr) is not None, "recv_buffer is empty")
-    st = [s for s in r.field_write_sites("recv_offset") if render(r.site_expr(s)) == "0"]
-    stb = [s for s in r.field_write_sites("recv_buffer") if "poll_next(" in render(r.site_expr(s))]
+        S.guarded(ctx, "read", "next frame fetched only when the buffer is drained", s, empty, "recv_buffer is empty")
+    st = [s for s in r.field_write_sites("recv_offset") if S.cval(r.site_expr(s)) == 0]
+    stb = [s for s in r.field_write_sites("recv_buffer") if S.has_call(r.site_expr(s), r"Stream>::poll_next$")]
     ctx.ob("read", "new frame starts at offset 0", len(st) == 1 and len(stb) == 1 and st[0].bb in r.reachable([stb[0].bb]) or (st and stb and stb[0].bb == st[0].bb), msg="recv_buffer = frame; recv_offset = 0")
     advr = [s for s in r.field_write_sites("recv_offset") if s not in st]
+    ctx.floor("read", "recv_offset advance", advr, 1)
     for s in advr:
-        ctx.ob("read", "recv_offset advances by the bytes handed out", render(r.site_expr(s)).startswith("AddWithOverflow(") and "std::cmp::min(SubWithOverflow(" in render(r.site_expr(s)), s.loc(), render(r.site_expr(s))[:200])
+        v = VR(r.site_expr(s))
+        ctx.ob("read", "recv_offset advances by the bytes handed out", n_expr is not None and v in ("AddWithOverflow(self.recv_offset, %s).0" % n_expr, "AddWithOverflow(%s, self.recv_offset).0" % n_expr), s.loc(), v[:200])
+    # every delivery is followed by exactly one advance before the byte count is reported (else the same bytes are delivered again)
+    okn = [mir.Site(r, x[1], x[2]) for x in r.defs[0] if x[0] == "stmt" and n_expr is not None and VR(r.rvalue_expr(x[3])) == "std::task::Poll::Ready{0: std::result::Result::Ok{0: %s}}" % n_expr]
+    ctx.floor("read", "Ready(Ok(n)) after a delivery", okn, 1)
+    for s in cp:
+        got = lib.count_range(r, r.succ[s.bb], [x.bb for x in okn], lib.bbs(advr))
+        ctx.ob("read", "recv_offset advanced exactly once between the copy and Ready(Ok(n))", got == (1, 1), s.loc(), "advances on the paths from the copy to the Ok(n) return: %s" % (got,))
+        reach = r.reachable(r.succ[s.bb])
+        other = [x for x in r.defs[0] if x[1] in reach and x[0] == "stmt" and mir.Site(r, x[1], x[2]) not in okn]
+        ctx.ob("read", "a delivery reports exactly the n bytes copied", not other, s.loc(), "results reachable after the copy: Ok(n) only" if not other else "another result is reachable after the copy: %s" % VR(r.rvalue_expr(other[0][3]))[:120])
+    # the frame is dropped only once it is fully consumed
+    consumed = S.rel_edges(r, len_of(is_buf), is_off)
+    drops = [s for s in r.field_write_sites("recv_buffer") if s not in stb]
+    for s in drops:
+        e = r.site_expr(s)
+        ctx.ob("read", "the only other store to recv_buffer is the empty buffer", e[0] == "call" and re.search(r"Bytes::new$", strip_generics(e[1])) is not None, s.loc(), VR(e)[:120])
+        S.guarded(ctx, "read", "frame dropped only when fully consumed", s, consumed["le"], "recv_buffer.len() == recv_offset")
+        for a in advr:
+            S.guarded(ctx, "read", "after a delivery the frame is dropped only if the advanced offset reached its end", s, consumed["le"], "recv_buffer.len() == recv_offset tested after recv_offset += n", start=a.bb)
     # ---- framed: error discipline + length prefix
     for fn, inner_pat in (("encrypt", "encrypt_fn"), ("decrypt", "decrypt_fn")):
         b = ctx.body(N, r"io::framed::%s$" % fn)
         me = b.call_sites(r"Result::map_err$")
-        ok = len(me) == 1 and "fn:libp2p_noise::io::framed::into_io_error" in render(b.site_expr(me[0]))
+        ok = len(me) == 1 and any(x[0] == "fn" and re.search(r"io::framed::into_io_error$", strip_generics(x[1])) for x in mir.walk(b.site_expr(me[0])))
         ctx.ob("errors", "%s: snow error mapped to io::Error" % fn, ok, me[0].loc() if me else "", render(b.site_expr(me[0]))[:200] if me else "")
         if me:
             used = lib.local_uses(b, me[0].term["d"]["l"]) > 0
-            br = [t for _, t in lib.switch_edges_on_site(b, me[0], {"Break"})]
-            ctx.ob("errors", "%s: failure is propagated" % fn, used and len(br) == 1, me[0].loc(), "map_err(..)? — Break edge returns the error")
+            good, br = S.call_outcome_edges(b, me[0])
+            br = [t for _, t in br]
+            ctx.ob("errors", "%s: failure is propagated" % fn, used and len(br) == 1, me[0].loc(), "map_err(..)? — the Err edge returns the error")
             for t in br:
-                okk = [mir.Site(b, x[1], x[2]).bb for x in b.defs[0] if x[0] == "stmt" and render(b.rvalue_expr(x[3])).startswith("std::result::Result::Ok")]
+                okk = [s.bb for s in S.ok_sites(b)]
                 ctx.ob("errors", "%s: no Ok after a crypto failure" % fn, not (set(okk) & b.reachable([t])), me[0].loc(), "Ok(..) unreachable from the error edge")
-    dl = ctx.body(N, r"io::framed::decode_length_prefixed$")
+    dl = S.canon_args(ctx.body(N, r"io::framed::decode_length_prefixed$"), ["src"])
+    u16 = prog.const(N, r"io::framed::U16_LENGTH$").get("v")
     sp = dl.call_sites(r"BytesMut::split_to$")
     ad = dl.call_sites(r"advance$")
     ctx.floor("prefix", "split_to / advance", sp + ad, 2)
+    is_hdr = lambda e: S.cval(e) == u16 or (e[0] == "call" and re.search(r"mem::size_of$", strip_generics(e[1])) is not None)
+    avail = len_of(lambda e: S.is_arg(e, 1))
+    is_len = lambda e: S.has_call(e, r"from_be_bytes$") and not S.has(e, lambda x: x[0] == "bin")
+    # `src.len() - 2 >= len`  or  `src.len() >= len + 2` (either operand order / polarity)
+    relA = S.rel_edges(dl, lambda e: (e[0] == "field" and e[2] == "0" and e[1][0] == "bin" and e[1][1] in ("SubWithOverflow", "Sub") and avail(e[1][2]) and is_hdr(e[1][3]))
+                       or (e[0] == "bin" and e[1] == "Sub" and avail(e[2]) and is_hdr(e[3])), is_len)
+
+    def len_plus_hdr(e):
+        if e[0] == "field" and e[2] == "0":
+            e = e[1]
+        return e[0] == "bin" and e[1] in ("AddWithOverflow", "Add") and ((is_len(e[2]) and is_hdr(e[3])) or (is_len(e[3]) and is_hdr(e[2])))
+    relB = S.rel_edges(dl, avail, len_plus_hdr)
+    complete = relA["ge"] | relB["ge"]
+    hdr = S.rel_edges(dl, avail, is_hdr)["ge"]
     for s in sp + ad:
-        ctx.guarded("prefix", "frame consumed only when complete (%s)" % mir.strip_generics(dl.call_name(s.term)).split("::")[-1], s,
-                    lambda c, rr, l: l == "true" and re.match(r"^Ge\(SubWithOverflow\(\w+::BytesMut::len\(src\), const:libp2p_noise::io::framed::U16_LENGTH\)\.0, ", rr) is not None, "src.len() - 2 >= len")
-        ctx.guarded("prefix", "header present (%s)" % mir.strip_generics(dl.call_name(s.term)).split("::")[-1], s,
-                    lambda c, rr, l: l == "false" and re.match(r"^Lt\(\w+::BytesMut::len\(src\), ", rr) is not None, "src.len() >= 2")
+        nm = strip_generics(dl.call_name(s.term)).split("::")[-1]
+        S.guarded(ctx, "prefix", "frame consumed only when complete (%s)" % nm, s, complete, "src.len() - 2 >= len")
+        S.guarded(ctx, "prefix", "header present (%s)" % nm, s, hdr, "src.len() >= 2")
     for s in sp:
-        e = render(dl.site_expr(s)[2][1])
-        ctx.ob("prefix", "split length is the decoded prefix", "from_be_bytes(" in e, s.loc(), e[:120])
+        e = dl.site_expr(s)[2][1]
+        ctx.ob("prefix", "split length is the decoded prefix", is_len(e), s.loc(), render(e)[:120])
+    for s in ad:
+        e = dl.site_expr(s)[2][1]
+        ctx.ob("prefix", "exactly the header is skipped", S.cval(e) == u16, s.loc(), render(e)[:80])
     el = ctx.body(N, r"io::framed::encode_length_prefixed$")
+    si = [i for i in range(1, el.argc + 1) if re.search(r"\[u8\]", el.locals[i])]
+    si = si[0] if len(si) == 1 else 1
+    di = 3 - si
     ex = el.call_sites(r"extend_from_slice$")
-    ok = len(ex) == 2 and "to_be_bytes((core::slice::len(src) as u16))" in render(el.site_expr(ex[0])) and render(el.site_expr(ex[1])[2][1]) == "src"
+    ok = len(ex) == 2
+    if ok:
+        a0, a1 = el.site_expr(ex[0])[2][1], el.site_expr(ex[1])[2][1]
+        ok = (S.has_call(a0, r"to_be_bytes$") and S.has(a0, lambda x: x[0] == "cast" and x[2] == "u16" and len_of(lambda y: S.is_arg(y, si))(x[1])) and S.is_arg(S.peel(a1), si)
+              and all(S.is_arg(S.peel(el.site_expr(x)[2][0]), di) for x in ex))
     ctx.ob("prefix", "encode = be16(len) ++ payload", ok, "%s:%d" % (el.file, el.line), str([render(el.site_expr(s))[:120] for s in ex]))
+    if len(ex) == 2:
+        lib.precedes(ctx, "prefix", "length precedes payload", el, [ex[0].bb], [ex[1].bb], "be16(len) is appended before the payload")
